@@ -208,6 +208,56 @@ if __name__ == "__main__":
 '''
 
 
+def vendored_copies(tid0, nfiles, seed):
+    """One program holding an installed library file AND a byte-identical copy of it in a user directory (a vendored
+    package): within ONE lifetime of the filter's cache, in both orders of first use, every code object of the
+    installed file must be rejected and every code object of the copy admitted."""
+    core.use_repo()
+    import monkeytype.config as cfg
+    roots = [str(p) for p in cfg.LIB_PATHS]
+    os.environ.pop("MONKEYTYPE_TRACE_MODULES", None)
+    rng = random.Random(seed)
+    base = tlc.scratch_dir("mtverif_vendor_")
+    recs = []
+    try:
+        import json as _json
+        import email as _email
+        cands = []
+        for pkg in (_json, _email):
+            d = os.path.dirname(pkg.__file__)
+            cands += [(pkg.__name__ + "." + f[:-3], os.path.join(d, f)) for f in sorted(os.listdir(d)) if f.endswith(".py")]
+        try:
+            import libcst
+            d = os.path.dirname(libcst.__file__)
+            cands += [("libcst." + f[:-3], os.path.join(d, f)) for f in sorted(os.listdir(d)) if f.endswith(".py")][:10]
+        except ImportError:
+            pass
+        rng.shuffle(cands)
+        for mod, path in cands[:nfiles]:
+            with open(path, "rb") as fh:
+                src = fh.read()
+            vpath = os.path.join(base, "vendored", *mod.split(".")) + ".py"
+            os.makedirs(os.path.dirname(vpath), exist_ok=True)
+            with open(vpath, "wb") as fh:
+                fh.write(src)
+            for order in ("installed_first", "copy_first"):
+                inst = list(iter_code(compile(src, path, "exec"), set()))
+                copy = list(iter_code(compile(src, vpath, "exec"), set()))
+                seq = [(path, inst), (vpath, copy)]
+                if order == "copy_first":
+                    seq.reverse()
+                cfg.default_code_filter.cache_clear()
+                for pth, codes in seq:
+                    for v in sorted({cfg.default_code_filter(c) for c in codes}):
+                        recs.append(admit_record(tid0 + len(recs), pth, mod, [], v, roots))
+                        recs[-1]["case"] = {"place": "vendored_copy_of_installed_file", "order": order,
+                                            "which": "installed" if pth == path else "copy", "module": mod}
+    finally:
+        cfg.default_code_filter.cache_clear()
+        shutil.rmtree(base, ignore_errors=True)
+    return recs
+
+
 def run_main_scenarios(tid0, n, seed):
     """`monkeytype run script.py`: functions of __main__ are traced but must never be stored."""
     recs = []
@@ -276,7 +326,10 @@ def main(pid, tier, seed, replay=None):
                  "code_objects": sum(r.get("ncode", 0) for r in sweep) // 4})
     runs = run_main_scenarios(2 * 10 ** 6, 2 if q else 10, seed)
     plan.append({"family": "`monkeytype run` of generated scripts (functions of __main__ plus a user module)", "cases": len(runs)})
-    allrecs = recs + sweep + runs
+    vend = vendored_copies(3 * 10 ** 6, 12 if q else 60, seed)
+    plan.append({"family": "an installed library file and a byte-identical copy in a user directory in one program, both orders "
+                           "of first use, one cache lifetime", "cases": len(vend)})
+    allrecs = recs + sweep + runs + vend
     slim = [{k: v for k, v in r.items() if k not in ("case", "ncode", "mode")} for r in allrecs]
     for r in slim:   # homogeneous records per family are not required, but every field a clause reads must exist
         r.setdefault("modules", [])
@@ -291,6 +344,8 @@ def main(pid, tier, seed, replay=None):
         for clause in v.get("viol", []):
             if r["ev"] == "Admit":
                 vio = {"clause": clause, "allowlist": r["allowset"], "place": r.get("case", {}).get("place", "installed")}
+                if vio["place"] == "vendored_copy_of_installed_file":
+                    vio["order"], vio["which"] = r["case"]["order"], r["case"]["which"]
             else:
                 vio = {"clause": clause}
             run.violation(vio, {k: r[k] for k in r if k != "tid"})
